@@ -408,9 +408,13 @@ def statement_checks(ck, F):
         if b is None:
             continue
         ok = False
+        from lib import dollar_predicates
+        dps = dollar_predicates(F)
         for c in b.calls():
             if c.callee.endswith("ends_with") and any(strip_expr(b.expr(a))[0] == "const" and strip_expr(b.expr(a))[1].get("int") == 36
                                                       for a in c.args):
+                ok = True
+            if c.callee in dps:           # the same test under a name (`is_string_variable_name(name)`)
                 ok = True
         ck.require(ok, "C06:SUFFIX:%s" % fn, "name-suffix predicate", "%s decides by ends_with('$')" % fn,
                    "%s no longer derives the kind from the `$` suffix" % fn, b.span)
